@@ -10,7 +10,7 @@
    implementation itself is exercised (recover + watchdog). *)
 From Coq Require Import ZArith Bool.
 From Apd Require Import Generated.Consts Model.Base Model.NumDigits Model.Decimal Model.Context Model.Text Model.Conv Spec.SpecZ
-  Proofs.Core Proofs.SetExponent Proofs.RoundSpec Proofs.OpsProofs Proofs.OpsProjections Proofs.DivProofs Proofs.QuantizeProofs Proofs.QuantizeMid Proofs.CeilFloor Proofs.TotalProofs Proofs.Accept Proofs.TotalMore.
+  Proofs.Core Proofs.SetExponent Proofs.RoundSpec Proofs.OpsProofs Proofs.OpsProjections Proofs.DivProofs Proofs.QuantizeProofs Proofs.QuantizeMid Proofs.CeilFloor Proofs.TotalProofs Proofs.Accept Proofs.TotalMore Model.Roots Model.Exp Model.Ln Model.LnHalley Proofs.LoopFuel.
 Open Scope Z_scope.
 
 Theorem C04_numdigits_total est : est_in_range est -> forall b, total (num_digits_with est b).
@@ -106,3 +106,33 @@ Example C04_numdigits_negative_wide : num_digits (- 2 ^ 200) = Ok 61.
 Proof. vm_compute. reflexivity. Qed.
 Example C04_sign_in_mantissa_rejected : set_string_raw [46; 45; 53] = None.      (* ".-5" *)
 Proof. vm_compute. reflexivity. Qed.
+
+(* The loops bounded by loop.done (Cbrt's Newton iteration, Ln's Halley iteration) end on their own: loop.done counts the
+   passes and fails at maxIterations, so fuel beyond the remaining passes changes nothing - for every operand, context and
+   value of the float-derived inputs.  With the fuel the models use (Precision + 14 against maxIterations = Precision + 11)
+   the fuel never decides. *)
+Theorem C04_cbrt_newton_ends_by_itself est k fuel nc lp mi ax z pz i : 0 <= i < mi -> mi - i <= Z.of_nat fuel ->
+  cbrt_newton est (k + fuel) nc lp mi ax z pz i = cbrt_newton est fuel nc lp mi ax z pz i.
+Proof. exact (cbrt_newton_any_fuel est k fuel nc lp mi ax z pz i). Qed.
+Print Assumptions C04_cbrt_newton_ends_by_itself.
+Theorem C04_ln_halley_ends_by_itself est k fuel nc lp mi z exps a pz i : 0 <= i < mi -> mi - i <= Z.of_nat fuel ->
+  ln_halley est (k + fuel) nc lp mi z exps a pz i = ln_halley est fuel nc lp mi z exps a pz i.
+Proof. exact (ln_halley_any_fuel est k fuel nc lp mi z exps a pz i). Qed.
+Print Assumptions C04_ln_halley_ends_by_itself.
+Theorem C04_ln_model_fuel_never_decides est k c nc z exps a0 : 0 <= prec c ->
+  ln_halley est (k + Z.to_nat (prec c + 14)) nc (prec c + 1) (10 + (prec c + 1)) z exps a0 (mkDec Finite false 0 0) 0 =
+  ln_halley est (Z.to_nat (prec c + 14)) nc (prec c + 1) (10 + (prec c + 1)) z exps a0 (mkDec Finite false 0 0) 0.
+Proof. exact (ln_model_fuel est k c nc z exps a0). Qed.
+Print Assumptions C04_ln_model_fuel_never_decides.
+(* Sqrt's Newton loop: p - 2 doubles on every pass up to maxp, so fuel beyond log2 of the target precision changes nothing;
+   the model's fuel (log2 (workp + 5) + 4 passes from p = 3 to maxp = workp + 5) is beyond that *)
+Theorem C04_sqrt_newton_ends_by_itself est fuel c p maxp f a :
+  3 <= p <= maxp -> maxp - 2 <= (p - 2) * 2 ^ Z.of_nat fuel ->
+  sqrt_loop est (S fuel) c p maxp f a = sqrt_loop est fuel c p maxp f a.
+Proof. exact (sqrt_loop_fuel_enough est fuel c p maxp f a). Qed.
+Print Assumptions C04_sqrt_newton_ends_by_itself.
+Theorem C04_sqrt_model_fuel_never_decides est c workp f a : 7 <= workp ->
+  let fuel := Z.to_nat (Z.log2 (workp + 5) + 4) in
+  sqrt_loop est (S fuel) c 3 (workp + 5) f a = sqrt_loop est fuel c 3 (workp + 5) f a.
+Proof. exact (sqrt_model_fuel est c workp f a). Qed.
+Print Assumptions C04_sqrt_model_fuel_never_decides.
